@@ -301,6 +301,130 @@ theorem C06_dominating_sets_elects_top (p : Profile) (st : States) (h : dominati
     injection h with h; subst h
     exact ⟨t, rest, heq, by simp [electedOf, initialState], rfl⟩
 
+/-! ### tied positions -/
+
+theorem posOfR_none {r : Ranking} {c : Cand} (h : ∀ s ∈ r, c ∉ s) : posOfR r c = none := by
+  have : ¬ List.findIdx (fun s => s.contains c) r < r.length := by
+    rw [List.findIdx_lt_length]
+    rintro ⟨s, hs, hc⟩
+    exact h s hs (by simpa using hc)
+  unfold posOfR
+  simp only [this, if_false]
+
+theorem posOfR_some_iff {r : Ranking} {c : Cand} {i : Nat} (h : posOfR r c = some i) :
+    ∃ s, r[i]? = some s ∧ c ∈ s ∧ ∀ j, j < i → ∀ t, r[j]? = some t → c ∉ t := by
+  simp only [posOfR] at h
+  split at h
+  · rename_i hlt
+    injection h with h; subst h
+    refine ⟨r[List.findIdx (fun s => s.contains c) r], List.getElem?_eq_getElem hlt, ?_, ?_⟩
+    · have := List.findIdx_getElem (w := hlt)
+      simpa using this
+    · intro j hj t ht
+      have hjl : j < r.length := lt_trans hj hlt
+      have := List.not_of_lt_findIdx hj
+      rw [List.getElem?_eq_getElem hjl] at ht
+      injection ht with ht
+      subst ht
+      simpa using this
+  · cases h
+
+theorem posOfR_of_mem {r : Ranking} {c : Cand} (h : ∃ s ∈ r, c ∈ s) : ∃ i, posOfR r c = some i := by
+  have : List.findIdx (fun s => s.contains c) r < r.length := by
+    rw [List.findIdx_lt_length]
+    obtain ⟨s, hs, hc⟩ := h
+    exact ⟨s, hs, by simpa using hc⟩
+  refine ⟨List.findIdx (fun s => s.contains c) r, ?_⟩
+  unfold posOfR
+  simp only [this, if_true]
+
+/-- **Head-to-head shares, tied positions included**: a listed candidate beats an unlisted one, two
+unlisted candidates split the ballot evenly, so do two candidates tied in one position, and two
+candidates always share exactly the ballot between them. -/
+theorem C06_prefShareR_cases (r : Ranking) (a b : Cand) :
+    ((∃ s ∈ r, a ∈ s) → (∀ s ∈ r, b ∉ s) → prefShareR r a b = 1 ∧ prefShareR r b a = 0) ∧
+    ((∀ s ∈ r, a ∉ s) → (∀ s ∈ r, b ∉ s) → prefShareR r a b = 1 / 2) ∧
+    (∀ i, posOfR r a = some i → posOfR r b = some i → prefShareR r a b = 1 / 2) ∧
+    prefShareR r a b + prefShareR r b a = 1 := by
+  refine ⟨?_, ?_, ?_, ?_⟩
+  · intro ha hb
+    obtain ⟨i, hi⟩ := posOfR_of_mem ha
+    simp [prefShareR, hi, posOfR_none hb]
+  · intro ha hb
+    simp [prefShareR, posOfR_none ha, posOfR_none hb]
+  · intro i hi hj
+    simp [prefShareR, hi, hj]
+  · unfold prefShareR
+    cases hi : posOfR r a <;> cases hj : posOfR r b <;> simp only
+    · norm_num
+    · norm_num
+    · norm_num
+    · rename_i i j
+      rcases Nat.lt_trichotomy i j with h | h | h
+      · have : ¬ j < i := by omega
+        simp [h, this]
+      · subst h; simp; norm_num
+      · have : ¬ i < j := by omega
+        simp [h, this]
+
+/-- an untied ranking is the list of singletons of its flattening -/
+theorem untied_eq_singletons (r : Ranking) (h : ∀ s ∈ r, s.length = 1) : r = r.flatten.map (fun c => [c]) := by
+  induction r with
+  | nil => rfl
+  | cons s rest ih =>
+    have hs : s.length = 1 := h s (by simp)
+    obtain ⟨c, rfl⟩ : ∃ c, s = [c] := by
+      match s, hs with
+      | [x], _ => exact ⟨x, rfl⟩
+    have := ih (fun t ht => h t (by simp [ht]))
+    simp only [List.flatten_cons, List.singleton_append, List.map_cons]
+    rw [← this]
+
+theorem posOfR_untied (r : Ranking) (h : ∀ s ∈ r, s.length = 1) (c : Cand) :
+    posOfR r c = posOf r.flatten c := by
+  have hr := untied_eq_singletons r h
+  generalize r.flatten = l at hr
+  subst hr
+  clear h
+  unfold posOfR posOf
+  have : List.findIdx (fun s => s.contains c) (l.map (fun c => [c])) = List.findIdx (fun x => decide (x = c)) l := by
+    induction l with
+    | nil => rfl
+    | cons x xs ih =>
+      simp only [List.map_cons, List.findIdx_cons, List.contains_cons, List.contains_nil, Bool.or_false]
+      rw [ih]
+      by_cases hx : x = c
+      · subst hx; simp
+      · have : (c == x) = false := by simpa using fun e => hx e.symm
+        simp [hx, this]
+  simp only [this, List.length_map]
+
+/-- for untied rankings and two different candidates the general share is the flat one -/
+theorem prefShareR_untied (r : Ranking) (h : ∀ s ∈ r, s.length = 1) (hnd : r.flatten.Nodup) (a b : Cand) (hab : a ≠ b) :
+    prefShareR r a b = prefShare r.flatten a b := by
+  unfold prefShareR prefShare
+  rw [posOfR_untied r h a, posOfR_untied r h b]
+  cases hi : posOf r.flatten a <;> cases hj : posOf r.flatten b <;> simp only
+  rename_i i j
+  have hne : i ≠ j := by
+    intro e; subst e
+    have h1 := (posOf_some hi).2
+    have h2 := (posOf_some hj).2
+    rw [h1] at h2; exact hab (Option.some.inj h2)
+  rcases Nat.lt_or_gt_of_ne hne with hlt | hlt
+  · simp [hlt]
+  · have : ¬ i < j := by omega
+    simp [hlt, this]
+
+theorem h2h_eq_flat (p : Profile) (a b : Cand) (hab : a ≠ b)
+    (hun : ∀ bl ∈ p.ballots, ∀ s ∈ bl.ranking, s.length = 1)
+    (hrn : ∀ bl ∈ p.ballots, bl.ranking.flatten.Nodup) : h2h p a b = h2hFlat p a b := by
+  unfold h2h h2hFlat
+  congr 1
+  apply List.map_congr_left
+  intro bl hbl
+  rw [prefShareR_untied bl.ranking (hun bl hbl) (hrn bl hbl) a b hab]
+
 /-- **The recorded margins are the documented ones.** The code's head-to-head count on the profile
 in which every short ballot is replaced by all its completions (`ballot_fill`) equals the
 declarative count (listed beats unlisted, two unlisted candidates split evenly) — for every profile
@@ -309,8 +433,13 @@ theorem C06_fill_correct (p : Profile) (a b : Cand) (hc : p.cands.Nodup) (hab : 
     (ha : a ∈ p.cands) (hb : b ∈ p.cands)
     (hrn : ∀ bl ∈ p.ballots, bl.ranking.flatten.Nodup)
     (hrs : ∀ bl ∈ p.ballots, ∀ c ∈ bl.ranking.flatten, c ∈ p.cands)
-    (hlen : ∀ bl ∈ p.ballots, bl.ranking.length = bl.ranking.flatten.length) :
-    h2hFill p a b = h2h p a b :=
-  h2hFill_eq_h2h p a b hc hab ha hb hrn hrs hlen
+    (hun : ∀ bl ∈ p.ballots, ∀ s ∈ bl.ranking, s.length = 1) :
+    h2hFill p a b = h2h p a b := by
+  rw [h2h_eq_flat p a b hab hun hrn]
+  refine h2hFill_eq_h2h p a b hc hab ha hb hrn hrs ?_
+  intro bl hbl
+  have := untied_eq_singletons bl.ranking (hun bl hbl)
+  conv_lhs => rw [this]
+  rw [List.length_map]
 
 end VK
